@@ -166,16 +166,18 @@ func (mt *multiSwarm) LocalAddrs() (ret []Addr) {
 }
 
 func (mt *multiSwarm) Close() error {
+	// Close the hubs first: a receive loop may be waiting in the hub with a message nobody takes, and a transport
+	// (e.g. vswarm) may wait in its Close for that loop's callback to return.
+	mt.tells.CloseWithError(p2p.ErrClosed)
+	if mt.onClose != nil {
+		mt.onClose()
+	}
 	var err error
 	for _, t := range mt.swarms {
 		if err2 := t.Close(); err2 != nil {
 			err = err2
 			logctx.Errorln(mt.ctx, "closing swarms", err)
 		}
-	}
-	mt.tells.CloseWithError(p2p.ErrClosed)
-	if mt.onClose != nil {
-		mt.onClose()
 	}
 	return err
 }
